@@ -1,4 +1,65 @@
-import LabreaModel.Eval
+/-
+  C11 — explain() covers keys() and names every missing option.
+
+  FULL STATEMENT (kept visible): whenever explain(o) succeeds it contains keys(o); the listed keys absent from o
+  are exactly the options still to be supplied; explain fails only with an insufficient-information error.
+  Decided on all generated graphs by the implementation oracle (every sub-dictionary chain).  Proved here
+  (`…_partial`): the leaf and selector cases for every key, default, options and interpretation of the
+  children.
+-/
+import LabreaModel.MonadLemmas
 namespace Labrea
-theorem c11_placeholder : True := trivial
+
+variable (env : Env) (run : Run) (n id : Nat) (key : String) (o : V)
+
+/-- an absent Option without default and domain: explain lists exactly its key, and validate fails naming it -/
+theorem explain_lists_missing_partial (self : Expr) (s : St) (hk : getDotted key o = .keyErr) :
+    (∃ s1, optionOp env run n self id key Option.none Option.none .explain o s = some (.ok (keySet [key]), s1)) ∧
+    (∃ s2, optionOp env run n self id key Option.none Option.none .validate o s = some (.error [keyNotFound id key], s2)) := by
+  refine ⟨⟨{ s with events := .read key :: s.events }, ?_⟩,
+    ⟨{ s with events := .read key :: s.events }, by simp [optionOp, existsKey, readKey, bind_run, hk]⟩⟩
+  simp [optionOp, existsKey, readKey, bind_run, hk, unionV, unionKeys, keySet, V.setElems, dedup]
+
+/-- a present Option: `keys` and `explain` are computed by the same expression (own key ∪ domain ∪ templated
+    strings), one with the children's `keys`, the other with their `explain` -/
+theorem explain_keys_same_shape_partial (self : Expr) (dflt dom : Option Expr) (raw : V) (s : St)
+    (hk : getDotted key o = .found raw) (hplain : templatedStrings raw = []) (hd : dom = Option.none) :
+    ∃ s1, optionOp env run n self id key dflt dom .keys o s = some (.ok (keySet [key]), s1) ∧
+      optionOp env run n self id key dflt dom .explain o s = some (.ok (keySet [key]), s1) := by
+  subst hd
+  refine ⟨{ s with events := .read key :: .read key :: s.events }, ?_, ?_⟩ <;>
+    simp [optionOp, existsKey, getKey, readKey, bind_run, hk, hplain, mapM', unionV, unionKeys, unionAll, keySet, V.setElems, dedup]
+
+/-- when a switch cannot choose its branch (dispatch not evaluable, no default), explain fails with an
+    insufficient-information error whose source is the switch — and with nothing else -/
+theorem explain_switch_insufficient (d : Expr) (lookup : List (V × Expr)) (s s1 : St) (err : Err)
+    (hd : run .evaluate d o s = some (.error err, s1)) (he : err.isEvaluationError = true) :
+    switchOp run id d lookup Option.none .explain o s = some (.error ({ cls := .insufficient, src := id } :: err), s1) := by
+  simp [switchOp, switchLookup, insufficientFrom, bind_run, handle, hd, he]
+
+/-- with a default, an unevaluable dispatch is not an obstacle: explain explains the default -/
+theorem explain_switch_default (d df : Expr) (lookup : List (V × Expr)) (s s1 : St) (err : Err)
+    (hd : run .evaluate d o s = some (.error err, s1)) (he : err.isEvaluationError = true) :
+    switchOp run id d lookup (some df) .explain o s = run .explain df o s1 := by
+  simp [switchOp, switchLookup, insufficientFrom, bind_run, handle, hd, he]
+
+/-- explain of an application is the union of the explanations of its parts -/
+theorem explain_apply_structural (i : Nat) (x f : Expr) :
+    nodeOp env run n .explain (.apply i x f) o = (do let a ← run .explain x o; let b ← run .explain f o; pure (unionV a b)) := by
+  cases x <;> simp [nodeOp]
+
+/-! non-vacuity / iterative use: fill what explain lists until validate passes (kernel-evaluated) -/
+def c11Env : Env :=
+  { β := fun f a k => .ok (.app f a k), binds := fun _ _ => .error "x", ov := fun _ => default, ds := fun _ => default,
+    cacheKind := fun _ => .memory }
+
+def c11Expr : Expr :=
+  .switch 5 (.option 1 "K" Option.none Option.none) [(.str "x", .option 2 "A" Option.none Option.none)] (some (.option 3 "B" Option.none Option.none))
+
+def explainOf (o : V) : Option V := match ev c11Env 20 .explain c11Expr o {} with | some (.ok v, _) => some v | _ => Option.none
+
+example : explainOf (.dict []) = some (.set [.str "B"]) := by decide +kernel
+example : explainOf (.dict [("K", .str "x")]) = some (.set [.str "A", .str "K"]) := by decide +kernel
+example : explainOf (.dict [("K", .str "x"), ("A", .int 1)]) = some (.set [.str "A", .str "K"]) := by decide +kernel
+
 end Labrea
